@@ -563,6 +563,16 @@ inline void format_type(const ST::format_spec &spec, ST::format_writer &out, con
     ST::format_string(spec, out, inner.c_str(), inner.size());
 }
 
+// A user-defined type whose format_type takes it BY VALUE (the signature ST_FORMAT_TYPE declares) and that is expensive to copy:
+// every field that names the argument renders the same value
+struct ByValueLabel {
+    std::string text;
+};
+inline void format_type(const ST::format_spec &spec, ST::format_writer &out, ByValueLabel v)
+{
+    ST::format_string(spec, out, v.text.c_str(), v.text.size());
+}
+
 // A user-defined format_type writing through every method the writer offers: what arrives in the output is exactly what was
 // handed over (array literals with an embedded NUL, pointer + size with an embedded NUL, runs of one character)
 struct WriterProbe {
@@ -1223,15 +1233,17 @@ static void build(vf::Plan &plan, const vf::Opts &o)
                [](uint64_t i) { return strf("path text #%u, field #%u", (unsigned)(i % 7), (unsigned)(i / 7)); });
 
     // argument references with two digits (twelve arguments)
-    plan.stage("argument references {&1} .. {&12} with twelve arguments, alone, combined and with options", 12 + 6,
+    plan.stage("argument references {&1} .. {&12} with twelve arguments, alone, combined, with options and with leading zeros", 12 + 12,
                [](uint64_t i, Ctx &c) {
                    std::string f, want;
                    if (i < 12) {
                        f = "{&" + std::to_string(i + 1) + "}";
                        want = std::to_string(101 + i);
                    } else {
-                       static const char *const F[6] = {"{&1}{&12}", "{&10x}", "{&12>5}|", "{&9}{&10}", "[{&11<6}]", "{&10}{&1}{&10}"};
-                       static const char *const W[6] = {"101112", "6e", "  112|", "109110", "[111   ]", "110101110"};
+                       // (numbers in a specifier are decimal, leading zeros or not: {&010} is argument 10, {.010} precision 10, {5.08} width 5 precision 8)
+                       static const char *const F[12] = {"{&1}{&12}", "{&10x}", "{&12>5}|", "{&9}{&10}", "[{&11<6}]", "{&10}{&1}{&10}",
+                                                         "{&010}", "{&09}", "{&012x}", "{&0010>4}|", "{&08}{&011}", "{&1}{&009}"};
+                       static const char *const W[12] = {"101112", "6e", "  112|", "109110", "[111   ]", "110101110", "110", "109", "70", " 110|", "108111", "101109"};
                        f = F[i - 12];
                        want = W[i - 12];
                    }
@@ -1291,6 +1303,39 @@ static void build(vf::Plan &plan, const vf::Opts &o)
                    if (pr > 0 && pr < u8.size()) c.nontrivial();
                },
                [](uint64_t i) { return strf("precision case %u", (unsigned)i); });
+
+    plan.stage("user-defined type formatted BY VALUE and referenced by several fields; null / empty views with a width; leading zeros in width and precision", 16,
+               [](uint64_t i, Ctx &c) {
+                   std::string got, want;
+                   const char *what = "";
+                   vf::Outcome oc = vf::guard([&] {
+                       ST::string r;
+                       switch (i) {
+                       case 0: what = "{}|{&1}"; r = ST::format("{}|{&1}", ByValueLabel{"a-label-that-is-longer-than-any-small-string-buffer"}); want = "a-label-that-is-longer-than-any-small-string-buffer|a-label-that-is-longer-than-any-small-string-buffer"; break;
+                       case 1: what = "{&1}{&1}{&1}"; r = ST::format("{&1}{&1}{&1}", ByValueLabel{"0123456789abcdefXYZ"}); want = "0123456789abcdefXYZ0123456789abcdefXYZ0123456789abcdefXYZ"; break;
+                       case 2: what = "{.7}|{>9.7&1}|"; r = ST::format("{.7}|{>9.7&1}|", ByValueLabel{"a-label-of-some-length"}); want = "a-label|  a-label|"; break;
+                       case 3: what = "{}{}{&2}{&1}"; r = ST::format("{}{}{&2}{&1}", ByValueLabel{"first-value-long-enough"}, ByValueLabel{"second-value-long-enough"}); want = "first-value-long-enoughsecond-value-long-enoughsecond-value-long-enoughfirst-value-long-enough"; break;
+                       case 4: what = "[{4}] of std::string_view()"; r = ST::format("[{4}]", std::string_view()); want = "[    ]"; break;
+                       case 5: what = "[{>3_*}] of std::string_view()"; r = ST::format("[{>3_*}]", std::string_view()); want = "[***]"; break;
+                       case 6: what = "[{<5_-}] of std::u8string_view()"; r = ST::format("[{<5_-}]", std::u8string_view()); want = "[-----]"; break;
+                       case 7: what = "[{3}] of std::wstring_view()"; r = ST::format("[{3}]", std::wstring_view()); want = "[   ]"; break;
+                       case 8: what = "[{3}] of std::u16string_view() and std::u32string_view()"; r = ST::format("[{3}][{2}]", std::u16string_view(), std::u32string_view()); want = "[   ][  ]"; break;
+                       case 9: what = "[{4}] of an empty ST::string / std::string / char_buffer"; r = ST::format("[{4}][{4}][{4}]", ST::string(), std::string(), ST::char_buffer()); want = "[    ][    ][    ]"; break;
+                       case 10: what = "{.010}"; r = ST::format("{.010}", "abcdefghijkl"); want = "abcdefghij"; break;
+                       case 11: what = "{.08}"; r = ST::format("{.08}", "abcdefghijkl"); want = "abcdefgh"; break;
+                       case 12: what = "{12.010}|"; r = ST::format("{12.010}|", "abcdefghijkl"); want = "abcdefghij  |"; break;
+                       case 13: what = "{.009}"; r = ST::format("{.009}", "abcdefghijkl"); want = "abcdefghi"; break;
+                       case 14: what = "{.010f}"; r = ST::format("{.010f}", 0.5); want = "0.5000000000"; break;
+                       default: what = "{>012.03f}|"; r = ST::format("{>12.03f}|", 1.5); want = "       1.500|"; break;
+                       }
+                       got.assign(r.c_str(), r.size());
+                   });
+                   VF_COUNT("validated");
+                   if (!oc.ok()) c.fail(strf("special-arguments:unexpected-%s", out_slug(oc).c_str()), strf("format %s -> %s", what, oc.str().c_str()));
+                   else if (got != want) c.fail(strf("special-arguments:%s", diff_kind(want, got)), strf("format %s gives %s, expected %s", what, vf::vis(got).c_str(), vf::vis(want).c_str()));
+                   c.nontrivial();
+               },
+               [](uint64_t i) { return strf("special argument case %u", (unsigned)i); });
 
     plan.stage("a _stfmt formatter object called three times with different arguments (5 format strings)", 5,
                [](uint64_t i, Ctx &c) { run_formatter_reuse(c, i); }, [](uint64_t i) { return strf("format string #%u", (unsigned)i); });
